@@ -21,7 +21,7 @@ def prio_of(name):
     return 100000 - int(name[1:]) if name[1:].isdigit() else 0
 
 
-def make_inputs(d, R, long_at=0, bgzf_aligned=False):
+def make_inputs(d, R, long_at=0, bgzf_aligned=False, poison_at=0):
     """tiny graph, R reads aligned to >s1>s2 (each with its own substitution); long_at = k > 0: the k-th read is an
     ultra-long one (60,001 aligned bases on a third node), which realign passes through without realigning"""
     os.makedirs(d, exist_ok=True)
@@ -49,7 +49,13 @@ def make_inputs(d, R, long_at=0, bgzf_aligned=False):
                 f.write(f">{RN(i)}\n{seq}\n")
                 g.write(f"{RN(i)}\t{len(seq)}\t0\t{len(seq)}\t+\t>s3\t{len(big)}\t3\t60004\t{len(seq)}\t{len(seq)}\t60\ttp:A:P\tcg:Z:{len(seq)}=\n")
                 continue
-            ps, pe = i % 5, len(path) - (i % 7)
+            if i == poison_at:
+                # a record whose path is not a walk of this graph (made against another version of it): there is nothing to
+                # align against, the worker that gets it fails
+                f.write(f">{RN(i)}\nACGTACGTAC\n")
+                g.write(f"{RN(i)}\t10\t0\t10\t+\t>s2>s1\t{len(path)}\t0\t10\t10\t10\t60\ttp:A:P\tcg:Z:10=\n")
+                continue
+            ps, pe = (i + 1) % 3, len(path) - (i % 3)      # i = 2: starts at the first base of the path; i = 3: ends at its last base
             seq = list(path[ps:pe])
             k = (3 * i) % len(seq)
             seq[k] = "A" if seq[k] != "A" else "C"
@@ -194,6 +200,44 @@ def judge_outcomes(ctx, outcomes, kind):
             div["count"] += 1
             if len(div["examples"]) < 3:
                 div["examples"].append({"strict_clause": o["lockstep"]["clause"], "diverged": o["diverged"], "end": o["end"]})
+
+
+def poison_job(job):
+    from sched import run_schedule
+
+    k, labels, inputs, cid = job
+    os.environ["GAFTOOLS_VERIF"] = "1"
+    os.environ["GAFTOOLS_VERIF_BATCH_SIZE"] = str(k["B"])
+    gaf, gfa, fa = inputs
+    res = run_schedule(["realign", gaf, gfa, fa, "-c", str(k["C"])], k["Cap"], k["C"], labels)
+    o = _outcome_case(cid, k, res, [])
+    o["lockstep"] = {"clause": "data_caused_worker_failure", "detail": {}, "behaviour": [], "cfg": k}
+    return o
+
+
+def poison_runs(ctx, k, n):
+    """A worker that fails because of the DATA (a record whose path is not in the graph), not because a fault was injected:
+    schedules of the fault-free model are used as schedules only, the outcome must still be an abort."""
+    inputs = make_inputs(os.path.join(ctx.scratch, f"poison_{k['R']}_{k['poison']}"), k["R"], poison_at=k["poison"])
+    cfgp = write_cfg(ctx, dict(k, F=0, kinds=[]), True)
+    (nodes, edges, init), r = gen_states(ctx, "Realign", cfgp, dot=True, coverage=False)
+    g = tours.Graph(nodes, edges, init)
+    beh = tours.random_walks(g, n, ctx.seed + 17)
+    jobs = []
+    for bi, b in enumerate(beh):
+        labels = []
+        for lab, dst in b:
+            _, args = parse_action_label(lab)
+            labels.append((args[0]["t"], args[0].get("w"), None))
+        jobs.append((k, labels, inputs, f"poison{k['poison']}-R{k['R']}B{k['B']}C{k['C']}-b{bi}"))
+    outcomes = pool_map(poison_job, jobs, chunk=4)
+    ctx.evaluations += len(outcomes)
+    ctx.validated += len(outcomes)
+    for o in outcomes:
+        ctx.nontrivial.add(o["id"])
+        if o["faults"] == 0:
+            ctx.violation("harness_poison_record_did_not_fail_the_worker", {"outcome": {x: o[x] for x in ("R", "faults", "end", "end_detail", "prios")}})
+    judge_outcomes(ctx, [o for o in outcomes if o["faults"] > 0], "poison")
 
 
 def explore_config(ctx, k, n_random_walks, n_random_sched, max_tour=None):
